@@ -252,4 +252,56 @@ theorem swapOut_runs_source {s s' : St} {d : Dir} {maxIn out f0 : Nat} {o : Out}
     rw [hfe] at hfee ⊢
     k_solve
 
+/-! ### fee.rs: the fees-collector cut and the slice of `send_fee`; liquidity_pool.rs: position view -/
+
+/-- the fees-collector part of `send_fee`: `cut = ⌊fee · pct / 100000⌋`, `rest = fee − cut`
+    (checked: aborts for a cut above the fee, i.e. a percentage above 100 %) -/
+theorem fee_collector_cut_eq (fee pct : Nat) :
+    KPair.fee_collector_cut fee pct =
+      if fee < fee * pct / M then none else some (fee * pct / M, fee - fee * pct / M) := by
+  have hM : M = 100000 := rfl
+  k_defs [KPair.fee_collector_cut, hM]
+  k_solve
+
+/-- a successful model `collectorCut` with a configured collector returns the source's remainder,
+    and what it books for the collector is the source's cut -/
+theorem collectorCut_runs_source {s s' : St} {d : Dir} {fee pct rem : Nat} (hc : s.cut = some pct)
+    (h : s.collectorCut d fee = some (s', rem)) :
+    KPair.fee_collector_cut fee pct = some (fee * pct / M, rem) := by
+  simp only [St.collectorCut, hc, Option.bind_eq_bind, Option.bind_eq_some_iff, sub?_eq_some] at h
+  obtain ⟨r, ⟨hle, rfl⟩, h⟩ := h
+  have hr : rem = fee - fee * pct / M := by
+    split at h
+    · simp only [Option.bind_eq_bind, Option.bind_eq_some_iff, Option.pure_def, Option.some.injEq,
+        Prod.mk.injEq] at h
+      obtain ⟨_, _, _, rfl⟩ := h
+      rfl
+    · simp only [Option.pure_def, Option.some.injEq, Prod.mk.injEq] at h
+      exact h.2.symm
+  rw [fee_collector_cut_eq, if_neg (by omega), hr]
+
+/-- the slice every fee destination receives: `⌊remaining / number of destinations⌋`
+    (the caller returned before for zero destinations, so the division does not abort there) -/
+theorem fee_slice_amount_eq (rem n : Nat) :
+    KPair.fee_slice_amount rem n = if n = 0 then none else some (rem / n) := by
+  k_defs [KPair.fee_slice_amount]
+  k_solve
+
+/-- `setupFeesCollector` accepts exactly the cut percentages `0 < pct ≤ 100000`
+    (the model's `cfg (.setCollector c)`) -/
+theorem setup_fees_collector_guard_eq (pct : Nat) :
+    KPair.setup_fees_collector_guard pct = if 0 < pct ∧ pct ≤ M then some () else none := by
+  have hM : M = 100000 := rfl
+  k_defs [KPair.setup_fees_collector_guard, hM]
+  k_solve
+
+/-- source `get_token_for_given_position` on the first / second reserve IS the model's
+    `viewTokensForPosition` (component-wise): `⌊lp · reserve / supply⌋`, 0 for an empty pool -/
+theorem get_token_for_given_position_eq (s : St) (lp tok : Nat) :
+    KPair.get_token_for_given_position lp s.S s.r1 tok = some (tok, 0, (viewTokensForPosition s lp).1) ∧
+    KPair.get_token_for_given_position lp s.S s.r2 tok = some (tok, 0, (viewTokensForPosition s lp).2) := by
+  constructor <;>
+  · k_defs [KPair.get_token_for_given_position, viewTokensForPosition]
+    k_solve
+
 end Mx.KPair
